@@ -170,7 +170,8 @@ class ConnObj(SObj):
             raise
         ev = Event('executemany' if many else 'execute', sql=parts, params=params, obj=self.conn,
                    guard=it.ctx.current_guard(), binders=list(it.ctx.all_binders()), node=node,
-                   extra={'stmt': stmt, 'nparam': nparam, 'fn': it.fn_stack[-1].qualname if it.fn_stack else ''},
+                   extra={'stmt': stmt, 'nparam': nparam, 'preds': list(it.ctx.preds),
+                          'fn': it.fn_stack[-1].qualname if it.fn_stack else ''},
                    pc_len=len(it.ctx.pc))
         it.ctx.effects.append(ev)
         self.world.statements.append(ev)
